@@ -31,8 +31,9 @@ KINDS = ["data", "null", "onevar", "partial", "inf"]
 PNAMES = ["b", "a", "d", "c"]
 # the internal dimension: its name contains parameter names as substrings
 TDIM = "tab"
-COORDS = {"num": [[3, 1, 2], [0.5, 1.5, 2.5], [7, 9, 8], [1, 2, 3]],
-          "str": [["q", "p", "zz"], ["x", "y", "w"], ["k", "j", "l"],
+# (unsorted, and with labels that are false as Python values: 0, 0.0, '')
+COORDS = {"num": [[3, 0, 2], [0.5, 0.0, 2.5], [0, 9, 8], [1, 2, 3]],
+          "str": [["q", "", "zz"], ["x", "y", "w"], ["", "j", "l"],
                   ["u", "v", "t"]]}
 
 
